@@ -15,9 +15,11 @@ for fn in os.listdir(src):
 meta = {"seed_id": sid, "property": prop, "needs_to_manifest": needs, "confirmed": ran,
         "caught_by_check": caught == "yes", "detected_by": detected,
         "origin": "independent sub-agent given only the property text and a scratch worktree"}
-try:
-    meta["description"] = open(os.path.join(src, "meta.txt")).read()
-except Exception:
-    pass
+for fn in ("meta.txt", "README.txt"):
+    try:
+        meta["description"] = open(os.path.join(src, fn)).read()
+        break
+    except Exception:
+        pass
 json.dump(meta, open(os.path.join(dst, "meta.json"), "w"), indent=1)
 print("stored", dst)
